@@ -528,6 +528,37 @@ where
     }
 }
 
+#[cfg(feature = "verif")]
+impl<K, V> SkipList<K, V>
+where
+    K: Clone + Ord + Debug + std::hash::Hash + Eq,
+    V: Clone + PartialOrd + Debug,
+{
+    /// Verification hook (read-only): the chain of every level from 0 up to the current
+    /// maximum level, the key index sorted by key, and the stored length.
+    pub fn verif_dump_levels(&self) -> (Vec<Vec<(K, V)>>, Vec<(K, V)>, usize) {
+        let inner = self.inner.read().unwrap();
+        let mut levels = Vec::new();
+        unsafe {
+            for i in 0..=inner.level {
+                let mut chain = Vec::new();
+                let mut current = inner.head;
+                while let Some(next) = (&(*current).forward)[i] {
+                    chain.push(((*next).key.clone(), (*next).value.clone()));
+                    current = next;
+                    if chain.len() > inner.length + inner.key_index.len() + 16 {
+                        break; // corrupted chain (cycle): stop instead of looping forever
+                    }
+                }
+                levels.push(chain);
+            }
+        }
+        let mut index: Vec<(K, V)> = inner.key_index.iter().map(|(k, v)| (k.clone(), v.clone())).collect();
+        index.sort_by(|a, b| a.0.cmp(&b.0));
+        (levels, index, inner.length)
+    }
+}
+
 impl<K, V> Drop for SkipList<K, V> {
     fn drop(&mut self) {
         if let Ok(inner) = Arc::try_unwrap(self.inner.clone()) {
